@@ -137,12 +137,14 @@ func (it *Iterator) Seek(target []byte) bool {
 // Next advances the iterator to the next key
 func (it *Iterator) Next() bool {
 	it.mu.Lock()
-	defer it.mu.Unlock()
 
 	if !it.initialized {
+		// SeekToFirst and Valid take the (non-reentrant) mutex themselves
+		it.mu.Unlock()
 		it.SeekToFirst()
 		return it.Valid()
 	}
+	defer it.mu.Unlock()
 
 	if it.dataBlockIter == nil {
 		// If we don't have a current block, attempt to load the one at the current index position
